@@ -19,6 +19,7 @@ func init() {
 	verifRegister("VerifC14_KTruthy", VerifC14_KTruthy)
 	verifRegister("VerifC14_KAny", VerifC14_KAny)
 	verifRegister("VerifC14_KTypes", VerifC14_KTypes)
+	verifRegister("VerifC14_KNested", VerifC14_KNested)
 }
 
 var c14Env *lisp.LEnv
@@ -51,6 +52,7 @@ func VerifC14_KWhen_Setup()      { c14Setup() }
 func VerifC14_KTruthy_Setup()    { c14Setup() }
 func VerifC14_KAny_Setup()       { c14Setup() }
 func VerifC14_KTypes_Setup()     { c14Setup() }
+func VerifC14_KNested_Setup()    { c14Setup() }
 
 func c14Load(env *lisp.LEnv, src string) *lisp.LVal { return env.LoadString("c14", src) }
 
@@ -634,4 +636,39 @@ func VerifC14_KTypes() {
 		vAssert(gf == FailedConstraint, "only the boolean false satisfies s:is-false: "+vals[vi]+" gave "+gf)
 	}
 	vCover("end")
+}
+
+
+// A validator used as the TYPE of another one (nested validators): the outer validator accepts
+// exactly the values the inner one accepts AND that satisfy the outer constraints.  Bounds and value
+// symbolic; the nested validator given as a value, as a quoted symbol, through s:deftype and through
+// s:make-validator.
+func VerifC14_KNested() {
+	env := c14Setup()
+	u, v, x := vndInt("u"), vndInt("v"), vndInt("x")
+	env.PutGlobal(lisp.Symbol("u"), lisp.Int(u))
+	env.PutGlobal(lisp.Symbol("v"), lisp.Int(v))
+	env.PutGlobal(lisp.Symbol("x"), lisp.Int(x))
+	forms := []string{
+		"(s:deftype \"small\" s:int (s:lt u)) (s:deftype \"tiny\" small (s:lt v))",
+		"(s:deftype \"small\" s:int (s:lt u)) (s:deftype \"tiny\" 'small (s:lt v))",
+		"(s:deftype \"small\" s:int (s:lt u)) (set 'tiny (s:make-validator \"tiny\" small (s:lt v)))",
+		"(set 'tiny (s:make-validator \"tiny\" (s:make-validator \"small\" s:int (s:lt u)) (s:lt v)))",
+		"(s:deftype \"small\" s:int (s:lt u)) (s:deftype \"mid\" small) (s:deftype \"tiny\" mid (s:lt v))",
+		"(s:deftype \"small\" s:int (s:lt u)) (s:deftype \"tiny\" s:int (s:lt v) small)",
+	}
+	fi := vConcInt(vndChoice("form", len(forms)))
+	r := c14Load(env, forms[fi])
+	vAssert(r.Type != lisp.LError, "schemas build: "+c14Verdict(r))
+	got := c14Verdict(c14Load(env, "(s:validate tiny x)"))
+	vObserve("form", forms[fi])
+	if x < u && x < v {
+		vAssert(got == "ok", "a value satisfying the inner validator and the outer constraints validates: "+got)
+		vCover("accept")
+	} else {
+		vAssert(got == FailedConstraint, "a value the inner validator or an outer constraint refuses is failed-constraint: "+got)
+		vCover("reject")
+	}
+	gs := c14Verdict(c14Load(env, "(s:validate tiny \"s\")"))
+	vAssert(gs == WrongType, "a value of another type is wrong-type: "+gs)
 }
